@@ -170,7 +170,41 @@ def sc_composite(V, n=3, k=2, same_object=False, preselect=False, check=False, h
             V.prove(mcsim.same(V, pos1[i], pos0[i]), "other-atoms-untouched", info=info + f":atom={i}")
 
 
-SCENARIOS = {"single": sc_single, "composite": sc_composite}
+def sc_after_notification(V, n=3, default=-1, composite=False):
+    """The move was notified of atoms added (and of atoms removed) before it is called: do-not-touch
+    labels given to new atoms must stay untouchable, surviving atoms keep their meaning."""
+    from quansino.moves.displacement import DisplacementMove
+
+    info = f"after-notification:n={n}:default={default}:composite={composite}"
+    labels = mcsim.labels_for(V, n, -1, 1)
+    atoms = mcsim.make_atoms(V, n + 1, extras=False)  # one atom more than the move knows about
+    rng = mcsim.make_rng(V)
+    ctx = _ctx(V, atoms, rng)
+    op = RecOp(V)
+    move = DisplacementMove(labels.copy(), op)
+    move.default_label = default
+    move.on_atoms_changed([n], [])
+    full = np.array(list(labels) + [default if default is not None else (max([int(x) for x in labels if x >= 0], default=-1) + 1)])
+    V.prove(len(move.labels) == n + 1 and int(move.labels[-1]) == int(full[-1]), "new-atom-gets-the-configured-label", info=info)
+    target = move * 2 if composite else move
+    pos0 = np.asarray(atoms.positions, dtype=object if V.mode == "sym" else float).copy()
+    ok = bool(target(ctx))
+    V.reach("moved" if ok else "failed")
+    pos1 = np.asarray(atoms.positions, dtype=object if V.mode == "sym" else float)
+    dl = list(target.displaced_labels) if composite else [move.displaced_labels]
+    moved = [int(x) for x in dl if x is not None]
+    V.prove(all(x >= 0 for x in moved), "selected-label-non-negative", info=info + f":{moved}")
+    for i in range(n + 1):
+        if int(full[i]) < 0:
+            V.prove(mcsim.same(V, pos1[i], pos0[i]), "negative-label-atoms-never-displaced", info=info + f":atom={i}")
+    elig = sorted({int(x) for x in full if x >= 0})
+    if not elig:
+        V.prove(not ok, "no-eligible-particle-reports-failure", info=info)
+    if composite:
+        V.prove(target.number_of_moved_particles == min(2, len(elig)), "moves-min(n,eligible)-particles", info=info + f":{target.number_of_moved_particles}!=min(2,{len(elig)})")
+
+
+SCENARIOS = {"single": sc_single, "composite": sc_composite, "after_notification": sc_after_notification}
 replay = generic_replay(SCENARIOS)
 
 
@@ -185,6 +219,9 @@ def _plan(tier):
         ("composite", dict(n=3, k=2, same_object=True, preselect=False, check=True), R),
         ("composite", dict(n=3, k=2, same_object=False, preselect=True, check=False), R),
         ("composite", dict(n=3, k=3, same_object=True, preselect=False, check=False), R),
+        ("after_notification", dict(n=2, default=-1, composite=False), R),
+        ("after_notification", dict(n=2, default=-1, composite=True), R),
+        ("after_notification", dict(n=2, default=0, composite=False), ("moved",)),
     ]
     if not q:
         P.append(("composite", dict(n=4, k=3, same_object=False, preselect=True, check=False), R))
